@@ -102,7 +102,8 @@ void AutomationMgr::createBinding(int slot, const char *path, bool start_midi_le
     au.map.offset = 0;
     updateMapping(slot, ind);
 
-    if(start_midi_learn && slots[slot].learning == -1 && slots[slot].midi_cc == -1)
+    if(start_midi_learn && slots[slot].learning == -1 &&
+            slots[slot].midi_cc == -1 && slots[slot].midi_nrpn == -1)
         slots[slot].learning = ++learn_queue_len;
 
     damaged = true;
